@@ -75,7 +75,7 @@ structure WFrame (s s' : St) : Prop where
 
 theorem WFrame.refl (s : St) : WFrame s s :=
   ⟨rfl, rfl, rfl, rfl, rfl, rfl, rfl, rfl, rfl, rfl, fun h => Or.inl h, fun d hd => ⟨d, hd, rfl⟩, fun h => h,
-    fun p hp msg hm => Or.inr ⟨p, hp, hm⟩⟩
+    fun p hp _ hm => Or.inr ⟨p, hp, hm⟩⟩
 
 theorem WFrame.dls_nil {s s' : St} (f : WFrame s s') (h : s.dls = []) : s'.dls = [] := by
   cases hd : s'.dls with
@@ -110,7 +110,7 @@ theorem WFrame.of_eq {s s' : St} (h1 : s'.cfg = s.cfg) (h2 : s'.wflag = s.wflag)
     (h11 : s'.completed = s.completed) (h12 : s'.dls = s.dls) (h13 : s'.idls = s.idls) (h14 : s'.peers = s.peers) :
     WFrame s s' :=
   ⟨h1, h2, h3, h4, h5, h6, h7, h8, h9, h10, fun h => Or.inl (h11 ▸ h), fun d hd => ⟨d, h12 ▸ hd, rfl⟩,
-    fun h => h13.trans h, fun p hp msg hm => Or.inr ⟨p, h14 ▸ hp, hm⟩⟩
+    fun h => h13.trans h, fun p hp _ hm => Or.inr ⟨p, h14 ▸ hp, hm⟩⟩
 
 /-- Closes `WFrame s s'` when `s'` differs from `s` only in fields `WInv` does not read. -/
 macro "wframe_eq" : tactic => `(tactic| (apply WFrame.of_eq <;> first | rfl | (simp; done)))
